@@ -162,6 +162,7 @@ func (g *Gen) function(fn *ssa.Function, ct *Contract) {
 	st := g.entry
 	st.heaps["$alloc"] = "0"
 	var args []Val
+	g.allocBound = "0" // everything reachable from the arguments existed at entry
 	for _, p := range fn.Params {
 		args = append(args, g.freshVal("p_"+p.Name(), p.Type(), st))
 	}
@@ -169,6 +170,7 @@ func (g *Gen) function(fn *ssa.Function, ct *Contract) {
 	for _, fv := range fn.FreeVars {
 		free = append(free, g.freshVal("fv_"+fv.Name(), fv.Type(), st))
 	}
+	g.allocBound = ""
 	entrySnapshot := st.clone()
 	g.entry = entrySnapshot
 	cur := st.clone()
@@ -222,6 +224,23 @@ func (g *Gen) function(fn *ssa.Function, ct *Contract) {
 	}
 	cv := g.oblige("cover", "exit_reachable", ct.Props, fn, exitReach, "false", "requires is satisfiable and some return is reachable", fn.Pos())
 	cv.ExpectSat = true
+	// every loop under contract: some iteration can run to its back edge under the invariants (otherwise the
+	// "preserved" obligations of that loop hold vacuously)
+	{
+		var hs []*ssa.BasicBlock
+		for h := range g.topFrame.loopInfos {
+			hs = append(hs, h)
+		}
+		sort.Slice(hs, func(i, j int) bool { return g.topFrame.loopOrd[hs[i]] < g.topFrame.loopOrd[hs[j]] })
+		for _, h := range hs {
+			li := g.topFrame.loopInfos[h]
+			if len(li.backConds) == 0 {
+				continue
+			}
+			lc := g.oblige("cover", fmt.Sprintf("loop%d_body_completes", g.topFrame.loopOrd[h]), ct.Props, fn, or(li.backConds...), "false", "the loop invariants and the loop condition are jointly satisfiable and an iteration can finish", fn.Pos())
+			lc.ExpectSat = true
+		}
+	}
 	// hints: intermediate facts at each return site, proved there and then available as lemmas
 	for _, h := range ct.Hints {
 		applied := 0
@@ -496,6 +515,8 @@ func basePrelude(concrete bool) string {
 		b.WriteString("(declare-fun str_byte (Str Int) Int)\n")
 		b.WriteString("(declare-const str_empty Str)\n(assert (= (str_len str_empty) 0))\n")
 		b.WriteString("(assert (forall ((s Str)) (! (=> (= (str_len s) 0) (= s str_empty)) :pattern ((str_len s)))))\n")
+		b.WriteString("(assert (forall ((s Str)) (! (= (str_cat str_empty s) s) :pattern ((str_cat str_empty s)))))\n")
+		b.WriteString("(assert (forall ((s Str)) (! (= (str_cat s str_empty) s) :pattern ((str_cat s str_empty)))))\n")
 	}
 	return b.String()
 }
